@@ -124,7 +124,8 @@ def o_history(case):
     nt = False
     cls = set()
     live_stream = io.BytesIO()
-    live = RTCMReader(live_stream, quitonerror=case.get("qoe", 1))
+    lv = case.get("lv", 1)
+    live = RTCMReader(live_stream, quitonerror=case.get("qoe", 1), validate=lv)
     live_expect = []
     if table_digest() != BASELINE:
         raise Fail("tables-modified", "definition / lookup tables differ from their import-time digest before the history starts")
@@ -138,27 +139,59 @@ def o_history(case):
                 payload = payload[:1023]
         lm = op["lm"]
         how = op["how"]
+        if how == "drain":
+            # ask the long-lived reader for more when its stream is at its end: nothing to report, and it must not change
+            # what the reader delivers once more bytes arrive
+            try:
+                if op.get("via") == "next":
+                    next(live)
+                else:
+                    live.read()
+            except StopIteration:
+                pass
+            cls.add("drain")
+            continue
         if how == "live":
-            # long-lived reader over a growing stream: append the frame, read it back
+            # long-lived reader over a growing stream: append (junk +) the frame, read it back. The reference is a fresh
+            # reader with the same options over the frame alone: junk holds no frame, earlier traffic is history.
+            frame = framing.build_frame(payload)
+            bt = bool(op.get("bt"))
+            if bt:
+                frame = frame[:-1] + bytes([frame[-1] ^ 0x5A])
+            junk = bytes.fromhex(op.get("pre") or "")
             pos = live_stream.tell()
             live_stream.seek(0, 2)
-            live_stream.write(framing.build_frame(payload))
+            live_stream.write(junk + frame)
             live_stream.seek(pos)
             try:
-                raw, parsed = live.read()
+                if op.get("via") == "next":
+                    try:
+                        raw, parsed = next(live)
+                    except StopIteration:
+                        raw, parsed = None, None
+                else:
+                    raw, parsed = live.read()
                 res = ("ok", pub(parsed)) if parsed is not None else ("none", None)
             except Exception as e:  # pylint: disable=broad-except
+                raw = None
                 res = ("exc", type(e).__name__)
-            lmk = 1
-            key = (payload, lmk, "live")
-            # the live reader was built with labelmsm=1
-            lm = 1
+            fresh = list(RTCMReader(io.BytesIO(frame), quitonerror=case.get("qoe", 1), validate=lv))
+            fres = ("ok", pub(fresh[0][1])) if fresh else ("none", None)
+            fraw = fresh[0][0] if fresh else None
+            if (res, raw) != (fres, fraw):
+                what = f"long-lived reader {res[0]}{'' if res[0] != 'exc' else ':' + res[1]}, fresh reader over the same frame {fres[0]}"
+                raise Fail("live-reader-differs-from-fresh", f"step {step} ({framing.ref_identity(payload)}, validate={lv}, bad trailer={bt}, junk before={len(junk)}B, via {op.get('via', 'read')}): {what}")
+            if junk:
+                cls.add("live-after-junk")
+            if bt and lv == 0:
+                cls.add("live-badtrailer-validate0")
+            lm = 1  # the live reader was built with labelmsm=1
         else:
             res = do_parse(how, payload, lm)
             key = (payload, lm, "crc" if how == "static-badcrc" else "p")
         ident = framing.ref_identity(payload)
         # same bytes -> same outcome as the first time (msg/static/reader are all the same function of the bytes)
-        kk = (payload, lm, "crc" if how == "static-badcrc" else ("live" if how == "live" else "p"))
+        kk = (payload, lm, "crc" if how == "static-badcrc" else (f"live{bool(op.get('bt'))}" if how == "live" else "p"))
         if kk in first:
             if first[kk] != res:
                 a, b = first[kk], res
@@ -198,10 +231,18 @@ def s_history(draw, tier):
         sib = sibling(it.get("ident"), draw(st.integers(0, 5)))
         if sib and draw(st.integers(0, 2)) != 0:
             items.append({"payload": renumber(bytes.fromhex(it["payload"]), sib).hex(), "ident": sib})
+    quiet = [b for b in range(256) if b not in (0xD3, 0xB5, 0x24)]
+    junk = st.one_of(
+        st.lists(st.sampled_from(quiet), min_size=1, max_size=12).map(lambda l: bytes(l).hex()),
+        st.sampled_from([b for b in quiet if b & 0xFC]).map(lambda b: bytes([0xD3, b]).hex()),  # false sync: reserved bits set
+    )
     op = st.fixed_dictionaries(
         {
             "i": st.integers(0, 20),
-            "how": st.sampled_from(["msg", "msg", "static", "reader", "live", "static-badcrc"]),
+            "how": st.sampled_from(["msg", "msg", "static", "reader", "live", "live", "drain", "static-badcrc"]),
+            "pre": st.one_of(st.none(), st.none(), junk),
+            "bt": st.sampled_from([0, 0, 1]),
+            "via": st.sampled_from(["read", "next"]),
             "lm": st.sampled_from([1, 1, 2]),
             "mut": st.sampled_from([None, None, None, "truncate", "flip", "splice", "ones-from"]),
             "a": st.integers(0, 5000),
@@ -215,7 +256,7 @@ def s_history(draw, tier):
     # immediate repeats: the same operation on the same bytes twice in a row (state keyed on "the last frame")
     for k in sorted(set(draw(st.lists(st.integers(0, len(ops) - 1), min_size=0, max_size=6))), reverse=True):
         ops.insert(k + 1, dict(ops[k]))
-    return {"items": items, "ops": ops, "qoe": draw(st.sampled_from([0, 1]))}
+    return {"items": items, "ops": ops, "qoe": draw(st.sampled_from([0, 1])), "lv": draw(st.sampled_from([0, 1]))}
 
 
 MSM_IDS = [str(1070 + 10 * c + l) for c in range(7) for l in range(1, 8)]
@@ -425,7 +466,7 @@ def _short(c):
 
 
 SUBS = [
-    Sub("parse_histories", o_history, strategy=s_history, examples=(60, 1200), rule="re-parse after a different identity and a failing parse", need={"re-parse": 1, "failing-parse": 1, "live": 1}, sample=_short),
+    Sub("parse_histories", o_history, strategy=s_history, examples=(60, 1200), rule="re-parse after a different identity and a failing parse", need={"re-parse": 1, "failing-parse": 1, "live": 1, "drain": 1, "live-after-junk": 1, "live-badtrailer-validate0": 1}, sample=_short),
     Sub("deterministic_schedules", o_sched, strategy=s_sched, examples=(10, 200), rule=">= 10 context switches inside the decoder", need={"switches-inside-decoder>=10": 1}, sample=_short),
     Sub("cold_start_concurrent_first_use", o_cold, strategy=s_cold, examples=(1, 10), rule="every case: fresh interpreters with 6 threads starting together", sample=_short),
     Sub("free_running_threads", o_stress, strategy=s_stress, examples=(3, 20), rule="every case (8 threads)", sample=_short),
